@@ -22,7 +22,7 @@ META = {
 LEVEL = META['level']
 RULE = ('a case = one member list executed both ways from one initial state; distinct by (configuration, initial state, bundle bytes); non-trivial = at least two members and at least one write')
 ASSUMPTIONS = ['both executions use the in-process frame pipeline (bytes in, bytes out) with identical configuration and initial values']
-REQUIRED = ['bundle:same-read-around-attribute-write', 'bundle:reply>32KiB', 'members:standard-object', 'bundles', 'members', 'members:failing', 'members:unroutable-alone', 'members:write', 'members:read', 'members:attribute-service', 'bundle:size>=10',
+REQUIRED = ['bundle:member-with-more-data-status', 'bundle:same-read-around-attribute-write', 'bundle:reply>32KiB', 'members:standard-object', 'bundles', 'members', 'members:failing', 'members:unroutable-alone', 'members:write', 'members:read', 'members:attribute-service', 'bundle:size>=10',
             'monitor:member-bytes-equal', 'monitor:state-equal', 'monitor:offset-table', 'bundle:overlapping-writes']
 TIMEOUT = {'quick': 300, 'thorough': 2400}
 SOFT = {'quick': 30, 'thorough': 600}
@@ -169,6 +169,25 @@ def big_bundle(ctx, rng):
     run_bundle(ctx, cfg, members, init, {'config': cfg, 'initial': init, 'members': members[:3] + ['... %d reads of 480 bytes ...' % k] + members[-2:], 'big': True})
 
 
+def partial_bundle(ctx, rng):
+    """members whose own reply is partial: a read of more bytes than one reply carries is answered with status 0x06 *and* type and
+    data; inside a bundle it must be the same reply, and its neighbours must be located after it"""
+    cfg = [('BigD', 'DINT', 300, None), ('Byt', 'SINT', 700, None), ('W', 'INT', 4, None)]
+    small = {'path': {'segment': [{'symbolic': 'W'}]}, 'read_tag': {'elements': 4}}
+    pool = [{'path': {'segment': [{'symbolic': 'BigD'}]}, 'read_tag': {'elements': rng.choice([123, 200, 300])}},
+            {'path': {'segment': [{'symbolic': 'BigD'}, {'element': rng.randrange(0, 100)}]}, 'read_frag': {'elements': 200, 'offset': 0}},
+            {'path': {'segment': [{'symbolic': 'BigD'}]}, 'read_frag': {'elements': 200, 'offset': 488}},
+            {'path': {'segment': [{'symbolic': 'Byt'}]}, 'read_frag': {'elements': 700, 'offset': 0}},
+            {'path': {'segment': [{'symbolic': 'Byt'}]}, 'read_frag': {'elements': 700, 'offset': 488}},
+            {'path': {'segment': [{'symbolic': 'Byt'}, {'element': 100}]}, 'read_tag': {'elements': 600}}]
+    members = [small]
+    for m in rng.sample(pool, rng.choice([1, 2, 3])):
+        members += [m, rng.choice([small, {'path': {'segment': [{'symbolic': 'W'}, {'element': 1}]}, 'write_tag': {'type': 0xC3, 'elements': 2, 'data': [rng.randrange(1000), 5]}}])]
+    init = init_values(rng, cfg)
+    ctx.count('bundle:member-with-more-data-status')
+    run_bundle(ctx, cfg, members, init, {'config': cfg, 'initial': {'W': init['W']}, 'members': members, 'partial': True})
+
+
 def rc_types():
     from vlib import refcodec as rc
     return rc.TYPES
@@ -179,6 +198,8 @@ def run(ctx):
     rng = ctx.rng
     n = 120 if ctx.tier == 'quick' else 10**7
     big_bundle(ctx, rng)
+    for _ in range(3 if ctx.tier == 'quick' else 40):
+        partial_bundle(ctx, rng)
     for i in range(n):
         if ctx.expired():
             break
